@@ -1,7 +1,41 @@
-(** C04 — Plain-cache operations are linearizable per key. (interim: kernel-level atomicity facts) *)
+(** C04 — Plain-cache operations are linearizable per key: set overwrites, put never does.
+
+    Kernel-checked here: "put never does", in three parts that compose: (a) for
+    arbitrary environment responses, [cache_put] (and put_temp_file) issue no
+    rename at all: they publish by link only; (b) in the kernel model no call
+    other than a rename or an unlink changes the inode an existing name is bound
+    to, and a link onto an existing name fails and changes nothing; (c) that
+    inode's contents are immutable under every schedule (C01).  The
+    linearizability statement itself (linearization points at rename / link /
+    open) is decided by the exhaustive-schedule exploration with a Wing-Gong
+    search (vlib/c04.py), each schedule replayed on the pool semantics. *)
 From Coq Require Import List NArith ZArith String Bool.
-From Kismet Require Import FS.Fs FS.Prog Conc.Pool.
+From Kismet Require Import FS.Fs FS.Prog Ops.Ops Spec.ClassMon Spec.Calm Conc.Pool Proofs.PutNeverOverwrites.
 Import ListNotations.
+
+Theorem C04_put_never_renames : forall cfg k v, allc norename (cache_put cfg k v) anyc.
+Proof. exact put_never_renames. Qed.
+Theorem C04_put_temp_never_renames : forall cfg k fd p, allc norename (cache_write_temp false cfg k fd p) anyc.
+Proof. exact put_temp_never_renames. Qed.
+
+Theorem C04_only_rename_or_unlink_rebinds : forall f e c x j,
+  rebinds c = false -> name_of f x = Some j -> name_of (fst (sem f e c)) x = Some j.
+Proof. exact sem_keeps_binding. Qed.
+
+Theorem C04_link_onto_existing_fails : forall f e p q cq j,
+  resolve f q = inl cq -> name_of f cq = Some j ->
+  fst (sem f e (CLink p q)) = f /\ snd (sem f e (CLink p q)) <> ROk.
+Proof. exact link_onto_existing_fails. Qed.
+
+(** On every sequential run of put: no rename in the trace. *)
+Theorem C04_put_trace_has_no_rename : forall cfg k v w o,
+  let '(_, _, _, tr) := run (cache_put cfg k v) w o in
+  Forall (fun ev => match ev with EvCall c _ => norename c = true | _ => True end) tr.
+Proof.
+  intros. pose proof (allc_run norename _ _ (put_never_renames cfg k v) w o) as H.
+  destruct (run (cache_put cfg k v) w o) as [[[a w'] o'] tr]. apply H.
+Qed.
+
 (** A participant that is not scheduled does not change. *)
 Theorem C04_unscheduled_unchanged : forall A (pool : list (thread A)) f i,
   nth_error pool i = None -> pool_step i (pool, f) = (pool, f).
